@@ -58,6 +58,10 @@ class World:
         self.log = []              # ("open",) ("open-fail",) ("close",) ("x", idx, apdu, outcome)
         self.seq = 0
         self.connect_failures = 0
+        self.hid_model = False     # see HidStub
+        self.hid_resets = 0
+        self.hid_resets_used = 0   # value of hid_resets at the last getDongle attempt
+        self.unplugged = False     # a link failure happened since the last successful open
         self.opens_seen = 0        # getDongle calls so far
         self.fail_open_at = None   # ordinal (in opens_seen) of one getDongle call that is to fail
         self.inject = None         # callable(world, idx, apdu) -> None | fault tuple
@@ -73,6 +77,12 @@ class World:
         if self.dead:
             raise CommException("No dongle found")
         self.opens_seen += 1
+        if self.hid_model and self.unplugged:
+            fresh = self.hid_resets > self.hid_resets_used
+            self.hid_resets_used = self.hid_resets
+            if not fresh:
+                self.log.append(("open-fail",))
+                raise CommException("No dongle found")
         if self.fail_open_at is not None and self.opens_seen == self.fail_open_at:
             self.fail_open_at = None
             self.log.append(("open-fail",))
@@ -82,6 +92,7 @@ class World:
             self.log.append(("open-fail",))
             raise CommException("No dongle found")
         self.log.append(("open",))
+        self.unplugged = False
         self.__dict__["unread_answers"] = []
         self.device.on_reconnect()
         return Transport(self)
@@ -124,6 +135,7 @@ class Transport:
             if kind == "write":
                 w.log.append(("x", idx, apdu, ("fault", "write"), w.tag))
                 w.device.reset_session()
+                w.unplugged = True
                 raise_fault("write")
             if kind == "timeout":
                 w.log.append(("x", idx, apdu, ("fault", "timeout"), w.tag))
@@ -150,6 +162,7 @@ class Transport:
             raise comm_exception_for_sw(e.sw, e.data)
         if fault is not None and fault[0] == "read":
             w.log.append(("x", idx, apdu, ("fault", "read"), w.tag))
+            w.unplugged = True
             raise_fault("read")
         if fault is not None and fault[0] == "opbyte":
             resp = bytearray(resp)
@@ -171,7 +184,17 @@ class Transport:
         return bytearray(resp)
 
 
+CURRENT_WORLD = [None]      # set by harness.bind_world
+
+
 class HidStub:
+    """stands in for the ``hid`` module.  hsm2dongle.disconnect() calls hidapi_exit() because "the hidapi
+    library fails to detect a physical usb device reconnection" otherwise: with ``World.hid_model`` on,
+    a device that went away is only found again by a getDongle() made after a reset of the stack."""
+
     @staticmethod
     def hidapi_exit():
+        w = CURRENT_WORLD[0]
+        if w is not None:
+            w.hid_resets += 1
         return 0
